@@ -44,7 +44,7 @@ const TRAIN_ASSUME: &[&str] = &[
 
 const DISP_ASSUME: &[&str] = &[
     "estimated-time construction must succeed for a train to take part (routes shorter than the 5-mile look-ahead, braking curves reaching before the path start etc. are counted as rejected draws)",
-    "networks: generator family of DESIGN.md section 3 restricted to 5..24 gaps of 0.4-6 km, |grade| <= 0.8 %, at most 2 restrictions per set, every physical segment with its flip",
+    "networks: generator family of DESIGN.md section 3 restricted to 5..45 gaps of 0.4-6 km (routes 10-160 km), |grade| <= 0.8 %, at most 2 restrictions per set, every physical segment with its flip",
     "run_dispatch's configured constants: headway 8 min, search distance 30 mi, fixed distance 10 mi",
 ];
 
@@ -111,7 +111,7 @@ pub fn spec(id: &str) -> Option<Spec> {
             run: netval::run_c16,
             cases_quick: 160,
             cases_thorough: 6000,
-            rule: "case = one generated consistent network (1..6 gaps, sidings, flips, lockouts, typed/untyped speed sets, catenary). (a) it must be accepted by [Link]::validate, Network::from_json, from_yaml and from_file; (b) EVERY single-fault mutation of it is enumerated - each listed rule broken at every link (dummy entry, idx=position, flip mutual/self, next/prev/alt reciprocity, alt without primary, coincident switch points, elevation/heading profile start/end/sorted/duplicate/single, speed section start>end/duplicate/unsorted, catenary overlap/start>end, length <=0 / NaN / inf, NaN/negative numeric fields, references = len, len+1, u32::MAX) - and must yield an error value on every load path, never a panic; (c) the network rewritten in the legacy layout must load equal. Non-trivial/distinct = hash of the valid network's structure (every case enumerates all of its faults)",
+            rule: "case = one generated consistent network (1..6 gaps, sidings, flips, lockouts, typed/untyped speed sets, catenary). (a) it must be accepted by [Link]::validate, Network::from_json, from_yaml and from_file; (b) EVERY single-fault mutation of it is enumerated - each listed rule broken at every link (dummy entry, idx=position, flip mutual/self, next/prev/alt reciprocity, alt without primary, coincident switch points, elevation/heading profile start/end/sorted/duplicate/single, speed section start>end/duplicate/unsorted, catenary overlap/start>end/unsorted/past the link end, length <=0 / NaN / inf, NaN/negative numeric fields, references = len, len+1, u32::MAX) - and must yield an error value on every load path, never a panic; (c) the network rewritten in the legacy layout must load equal. One evaluation = one valid network or one faulty variant of it; distinct = (rule, content of the faulty network); also loaded through the legacy-layout file path",
             assumptions: &["only rules named in the property statement are expected to reject (Expect::Reject); non-finite but otherwise meaningful values (infinite speed, lockout reference out of range) are only required not to crash and are recorded",
                 "legacy layout is produced by rewriting the current-layout YAML (speed_sets map -> typed list); only networks whose links all use typed speed_sets have a legacy form"],
         },
@@ -134,23 +134,23 @@ pub fn spec(id: &str) -> Option<Spec> {
             rule: "case = one run of one simulation kind (LocomotiveSimulation, ConsistSimulation, SetSpeedTrainSim, SpeedLimitTrainSim whole/timed/link-by-link) with a save interval from {None,1,2,3,7,50,>run} set at construction or through the top-level setter, run lengths 1..900, 30 % of powertrain traces carry an over-limit demand at a chosen step so the run ends with an error; a generic walker collects (len, i column, state.i, save_interval) of every history in the object tree and checks equal lengths, same step per row, equal counters, row count = steps whose index is a multiple of the interval (+ initial state when every step is saved), empty when disabled, interval propagated. Non-trivial = interval not in {None,1} on a consist with >=2 unit kinds; distinct = hash of interval/run length/size",
             assumptions: TRAIN_ASSUME },
         "C20" => Spec { id: "C20", run: mass::run_c20, cases_quick: 24000, cases_thorough: 1000000,
-            rule: "case = one object (FuelConverter / Generator / ReversibleEnergyStorage / Locomotive loaded from JSON with redundant mass data: none, consistent, inconsistent, partial) followed by 1..12 random calls of set_mass (all MassSideEffect options, Some/None/derived values), expunge_mass_fields, set_force_max (all five ForceMaxSideEffect options), set_mu (all three MuSideEffect options); or a consist of 1..8 units + a built train. After an accepted call: getters Ok, mass == rating/specific, force_max == mu*mass*g when both known, option-specific side effects; after a rejected call: every getter that was Ok reports the same value. Non-trivial = sequence with >=1 accepted and >=1 rejected call; distinct = case hash",
+            rule: "case = one object (FuelConverter / Generator / ReversibleEnergyStorage / Locomotive loaded from JSON with redundant mass data: none, consistent, inconsistent, partial, and (35 %) a baseline + ballast + component-mass breakdown, complete or partial, agreeing with the mass or not) followed by 1..12 random calls of component-level set_mass (environment steps), set_mass (all MassSideEffect options, Some/None/derived values), expunge_mass_fields, set_force_max (all five ForceMaxSideEffect options), set_mu (all three MuSideEffect options); or a consist of 1..8 units + a built train. After an accepted call: getters Ok, mass == rating/specific, force_max == mu*mass*g when both known, option-specific side effects; after a rejected call: the stored mass / mu / force_max / baseline / ballast fields are unchanged and every getter that was Ok reports the same value. Non-trivial = sequence with >=1 accepted and >=1 rejected call; distinct = case hash",
             assumptions: &["private mass fields are read through serde_json (pyo3-only getters cannot be linked into a Rust harness)", "Locomotive sequences start from the shipped conventional / battery-electric defaults with mass, mu, force_max overwritten in the JSON"] },
         "C17" => Spec { id: "C17", run: serde_rt::run_c17, cases_quick: 480, cases_thorough: 24000,
-            rule: "case k selects a type group (k mod 12): components, locomotive kinds and consists, traces/vehicles/configs/builders, track objects (Link, Network, PathTpc built/finished), and the four simulation kinds; every object is taken through yaml, json and bincode: serialize, deserialize, second round trip byte-identical (no drift), reloaded data equal (bitwise for yaml/bincode, <= 1 ulp per number for json). For simulations EVERY step index 0..N of a short run (8-60 steps) is a checkpoint: save, load, resume to the end, final object compared with the uninterrupted run. Non-trivial/distinct = (group, case)",
+            rule: "case k selects a type group (k mod 13): components (incl. batteries with SOC outside their window), locomotive kinds and consists, traces/vehicles/configs/builders, track objects (Link, Network, PathTpc built/finished), the four simulation kinds, estimated-time networks; one evaluation = one object taken through yaml, json and bincode (string/bytes API) and through the file API (to_file/from_file on one path per format per process, so files are overwritten by longer and shorter objects): serialize, deserialize, second round trip byte-identical (no drift), reloaded data equal (bitwise for yaml/bincode, <= 1 ulp per number for json). For simulations EVERY step index 0..N of a short run (8-60 steps) is a checkpoint: save, load, resume to the end, final object compared with the uninterrupted run. Non-trivial = object not in its default/valid() state; distinct = (type, content)",
             assumptions: &["'behaves identically' is decided on the serialized data of the object after running to the end (fields marked serde(skip) are caches rebuilt on demand and are not compared)",
-                "EstTimeNet is covered under C15's workload (it needs a dispatch-sized network)"] },
+                ".bin files are not read back for objects whose bytes-API round trip already fails (recorded bincode findings): bincode's reader would pre-allocate the length a misaligned stream claims and abort the process"] },
         "C15" => Spec { id: "C15", run: dispatch::run_c15, cases_quick: 320, cases_thorough: 12000,
-            rule: "case = generated network (5..24 gaps, 0..k sidings, two origins / two destinations, flips, shortest O-D route 10-70 km) x 1..3 trains (both directions, departure 0..3 h); make_est_times for each; the whole graph is traversed: reciprocity of every forward/backward link, EVERY start-to-end walk enumerated by DFS (primary and alternate links; capped at 4000 per net, cap hits recorded), the arrive/clear events of each walk checked against the track network (origin, destination, contiguity, clear after arrive in order), every time/duration finite and non-negative, primary-predecessor equality and predecessor inequality on every edge, trip time = last - first. Non-trivial = net with >=1 split and >=1 join; distinct = hash of (nodes, walks, splits, route, train)",
+            rule: "one evaluation = one estimated-time network; generated network (5..45 gaps, 0..k sidings, two origins / two destinations, flips, shortest O-D route 10-160 km) x 1..3 trains (both directions, departure 0..3 h); make_est_times for each; the whole graph is traversed: reciprocity of every forward/backward link, EVERY start-to-end walk enumerated by DFS (primary and alternate links; capped at 4000 per net, cap hits recorded), the arrive/clear events of each walk checked against the track network (origin, destination, contiguity, clear after arrive in order), every time/duration finite and non-negative, primary-predecessor equality and predecessor inequality on every edge, trip time = last - first. Non-trivial = net with >=1 split and >=1 join; distinct = hash of (nodes, walks, splits, route, train)",
             assumptions: DISP_ASSUME },
         "C04" => Spec { id: "C04", run: dispatch::run_dispatch_case, cases_quick: 480, cases_thorough: 20000,
-            rule: "case = generated network (single track with 0..k passing sidings, two origins/destinations, optional lockouts) x 1..8 trains in both directions with equal and distinct departures and lengths shorter and longer than sidings; run_dispatch under the observer hook: every AfterAdvance/AfterRewind/EndOfIteration/Final snapshot is scanned for simultaneous authorities on a link and its flip/lockout links (violations at EndOfIteration/Final, recorded for the transient phases) and for links_blocked consistency; occupancy windows [front enters, tail leaves] are reconstructed from the final dispatch paths and checked pairwise for opposing/lockout overlap, entry/exit headway (8 min) and order of consecutive followers; plus the black-box front-occupancy condition on the returned timed paths. Non-trivial = instance with opposing traffic in which some leg was delayed beyond free running; distinct = hash of (route, trains, iterations, pairs)",
+            rule: "case = generated network (single track with 0..k passing sidings, two origins/destinations, lockout declarations: none, between the two tracks of a siding, and interlockings between non-adjacent segments with both listing orders) x 1..16 trains in both directions with equal and distinct departures and lengths shorter and longer than sidings; run_dispatch under the observer hook: every AfterAdvance/AfterRewind/EndOfIteration/Final snapshot is scanned for simultaneous authorities on a link and its flip/lockout links (violations at EndOfIteration/Final, recorded for the transient phases) and for links_blocked consistency; occupancy windows [front enters, tail leaves] are reconstructed from the final dispatch paths and checked pairwise for opposing/lockout overlap, entry/exit headway (8 min) and order of consecutive followers; plus the black-box front-occupancy condition on the returned timed paths. Non-trivial = instance with opposing traffic in which some leg was delayed beyond free running; distinct = hash of (route, trains, iterations, pairs)",
             assumptions: DISP_ASSUME },
         "C05" => Spec { id: "C05", run: dispatch::run_dispatch_case, cases_quick: 480, cases_thorough: 20000,
-            rule: "same instances as C04 (own seed stream): Ok => one route per train, starts on an origin at/after departure, ends on a destination, contiguous, non-decreasing finite times, every leg between consecutive dispatch nodes >= the train's own free-running duration (EstTimeNet.time_to_next), returned path == arrive events of the final dispatch path; Err => names the stuck trains or another explicit cause; panic/abort => violation (also in the debug-assertions build av-chk, where get_unchecked carries its bounds precondition); outer iterations <= 200 x dispatch nodes (bounded progress). Non-trivial = dispatch with >=1 rewind or a delayed leg; distinct as C04",
+            rule: "same instances as C04 (own seed stream): Ok => one route per train, starts on an origin at/after departure, ends on a destination, contiguous, non-decreasing finite times, every leg between consecutive dispatch nodes >= the train's own free-running duration (EstTimeNet.time_to_next), returned path == arrive events of the final dispatch path; Err => names the stuck trains or another explicit cause; panic/abort => violation (also in the debug-assertions build av-chk, where get_unchecked carries its bounds precondition); bounded progress on logical steps: advance attempts per outer iteration <= 20000 (the observer stops the run) and outer iterations <= 200 x dispatch nodes; the five unsafe blocks of free_path.rs count their executions (obs.unsafe_block_executions.*). Non-trivial = dispatch with >=1 rewind or a delayed leg; distinct as C04",
             assumptions: DISP_ASSUME },
         "C18" => Spec { id: "C18", run: determinism::run_c18, cases_quick: 480, cases_thorough: 16000,
-            rule: "three quarters of the cases run every result-producing pipeline (locomotive / consist / set-speed / speed-limited simulation incl. the builder, make_est_times, run_dispatch) twice in one process and export an output digest per (case, pipeline); the driver repeats the whole run in several FRESH processes (std hash-map seeds differ per process) and compares all digests byte for byte. One quarter builds a LocomotiveSimulationVec of 2..64 heterogeneous simulations (40 % with 1..3 elements made to fail at a chosen step), walks it serially and in parallel under rayon pools of 1,2,3,4,6,8,12,16 threads x 2 repetitions and compares every element with its own serial walk (or untouched input when the batch failed) and the error with the failing indices. Non-trivial = every case (comparison across processes or pool sizes); distinct = case id",
+            rule: "three quarters of the cases run every result-producing pipeline (locomotive / consist / set-speed / speed-limited simulation incl. the builder, make_est_times, run_dispatch) twice in one process and export an output digest per (case, pipeline); the driver repeats the whole run in several FRESH processes (std hash-map seeds differ per process) and compares all digests byte for byte. One quarter builds a LocomotiveSimulationVec of 2..64 heterogeneous simulations (40 % with 1..3 elements made to fail at a chosen step), walks it serially and in parallel under rayon pools of 1,2,3,4,6,8,12,16 threads x 2 repetitions and compares every element with its own serial walk (or untouched input when the batch failed) and the error with the failing indices. One evaluation = one pipeline execution pair or one batch; distinct = distinct output digests (pipelines) / distinct (size, failing set, serial results) of batches with >= 2 elements",
             assumptions: &["distinct work-stealing interleavings cannot be enumerated or counted for rayon: (pool size x repetition) pairs are reported instead; TSan and Miri runs of the batch walk are separate engines (thorough tier)"] },
         _ => return None,
     })
